@@ -1,4 +1,4 @@
-CONSTANTS FieldKinds = {"scalar", "str", "sliceInt", "mapStr", "structVal", "structDeep", "definedScalar", "definedMap","definedMapM", "errorField", "ifaceField", "typeParam", "genericInst", "sliceStr", "mapOfDefined", "untaggedDep", "genericNamedArg", "definedMapLate", "structWide", "structMixed", "structTwice", "identClash", "caseTwins", "structDefinedMap", "embedShadow"}
+CONSTANTS FieldKinds = {"scalar", "str", "sliceInt", "mapStr", "structVal", "structDeep", "definedScalar", "definedMap","definedMapM", "errorField", "ifaceField", "typeParam", "genericInst", "sliceStr", "mapOfDefined", "untaggedDep", "genericNamedArg", "definedMapLate", "structWide", "structMixed", "structTwice", "identClash", "caseTwins", "structDefinedMap", "embedShadow", "manyHelpers"}
  MaxFields = 3
  Variants = {"plain", "generic", "interfaces", "typeTagged"}
  DeepNested = TRUE
